@@ -12,7 +12,7 @@ import (
 )
 
 // C14: the key list of an HD wallet (type 4). With path m/A'/B (A in {0, 44}, B in {0, 1, 5, 7, 2^31-2}, B
-// hardened or not), 3 keys and 1..2 sub-accounts, the i-th listed key of sub-account s is the child number B+i of
+// hardened or not), 3 keys and 1..3 sub-accounts, the i-th listed key of sub-account s is the child number B+i of
 // the wallet m/(A+s)', and its label says so. Child derivation itself is an uninterpreted function here (it is
 // decided against BIP32 by H_C14_ChildPrivate); natively the real derivation runs.
 func H_C14_KeyList() {
@@ -29,7 +29,7 @@ func H_C14_KeyList() {
 	segwit_mode, bech32_mode, taproot_mode = false, false, false
 	hd_wallet_xtra = nil
 	keys = nil
-	hdsubs = 1 + uint(zzverif.Enum("hdsubs-1", 2))
+	hdsubs = 1 + uint(zzverif.Enum("hdsubs-1", 3))
 	// the path numbers come from a case split (formatting labels with symbolic numbers forks on every digit)
 	a := []uint64{0, 44}[zzverif.Enum("A", 2)]
 	b := []uint64{0, 1, 5, 7, 2147483646}[zzverif.Enum("B", 5)]
